@@ -108,6 +108,9 @@ type sched struct {
 	N          int               `json:"n"`
 	Sample     int               `json:"sample"` // 0 = all cases
 	Churn      int               `json:"churn"`
+	PikoBin    string            `json:"pikoBin"`
+	LogDir     string            `json:"logDir"`
+	Cases      [][]interface{}   `json:"cases"` // c18: [victim, phase, kill]
 	Behaviours [][][]interface{} `json:"behaviours"`
 }
 
@@ -700,6 +703,15 @@ func main() {
 		}
 		for _, disabled := range []bool{false, true} {
 			if err := runExpiry(disabled, emit); err != nil {
+				fail(err)
+			}
+		}
+	case "c18":
+		for _, cs := range sf.Cases {
+			victim, _ := cs[0].(string)
+			phase, _ := cs[1].(string)
+			kill, _ := cs[2].(bool)
+			if err := runLoss(sf.PikoBin, victim, phase, kill, sf.LogDir, emit); err != nil {
 				fail(err)
 			}
 		}
